@@ -680,6 +680,9 @@ func (e *Engine) step(fr *Frame, st *State, ins ssa.Instruction) []fork {
 		}
 		st.ghost["sends"] = Add(cur, Num(1))
 		st.ghost["lastSent"] = e.val(fr, st, x.X) // value of the most recent channel send
+		if ch, ok := e.val(fr, st, x.Chan).(OpaqueV); ok && ch.Ref != nil {
+			e.oblige(st, fr, "safe.close", ins, Bool(!st.closedCh[ch.Ref.String()]), "send on a channel closed on this path")
+		}
 	case *ssa.Select:
 		// nondeterministic choice among states (and default when non-blocking)
 		tt := x.Type().(*types.Tuple)
